@@ -404,6 +404,14 @@ func (e *c19Env) runCase(c c19Case) *c19Result {
 	outs := [2]string{filepath.Join(dir, "out1"), filepath.Join(dir, "out2")}
 	for k := 0; k < 2; k++ {
 		os.MkdirAll(outs[k], 0o755)
+		if k == 1 {
+			// the second run writes into a directory that already holds (longer) generated files, as when a
+			// smaller product profile is generated over the stock one: the output must not depend on them
+			stale := bytes.Repeat([]byte("// stale output of an earlier run\n"), 200000)
+			for _, f := range c19Outputs {
+				os.WriteFile(filepath.Join(outs[k], f), stale, 0o644)
+			}
+		}
 		cmd := exec.Command(e.fitgen, append(append([]string{}, args...), input, outs[k])...)
 		cmd.Dir = dir
 		cmd.Env = e.env
